@@ -2,7 +2,7 @@
 """Run /repo's pinned test suite with the verification guard OFF and compare
 with the stable-pass list of /root/.vp/BASELINE.json.  Exit 0 iff every test of
 that list passes."""
-import json, os, subprocess, sys, tempfile
+import json, os, shutil, subprocess, sys, tempfile
 import xml.etree.ElementTree as ET
 
 base = json.load(open("/root/.vp/BASELINE.json"))
@@ -11,6 +11,9 @@ env.pop("SRLIFE_VERIF", None)
 env.pop("PYTHONPATH", None)
 fd, junit = tempfile.mkstemp(suffix=".xml", dir=os.path.join(os.path.dirname(os.path.abspath(__file__)), ".."))
 os.close(fd)
+# the suite leaves hundreds of megabytes of temporary files behind: give it its own directory and remove it afterwards
+tmpd = tempfile.mkdtemp(prefix="baseline_tmp_", dir=os.path.join(os.path.dirname(os.path.abspath(__file__)), "..", "out"))
+env["TMPDIR"] = tmpd
 def untracked():
     out = subprocess.run(["git", "-C", "/repo", "status", "--porcelain", "--untracked-files=all"],
                          capture_output=True, text=True).stdout
@@ -28,6 +31,7 @@ try:
             passed.add("%s::%s" % (tc.get("classname"), tc.get("name")))
 finally:
     os.remove(junit)
+    shutil.rmtree(tmpd, ignore_errors=True)
     for f in untracked() - before:   # files the tests drop into their cwd
         try:
             os.remove(os.path.join("/repo", f))
